@@ -19,10 +19,17 @@ type CLIResult struct {
 // runCLI executes the actionlint binary built from the repository's working tree (plain or -race
 // build) in directory cwd. extraEnv entries are appended to the environment.
 func runCLI(race bool, cwd string, stdin []byte, extraEnv []string, args ...string) CLIResult {
-	bin := filepath.Join(binDir(), "actionlint")
+	bin := "actionlint"
 	if race {
-		bin = filepath.Join(binDir(), "actionlint-race")
+		bin = "actionlint-race"
 	}
+	return runCLIBin(bin, cwd, stdin, extraEnv, args...)
+}
+
+// runCLIBin runs a named build of the CLI from the bin directory (actionlint, actionlint-race,
+// actionlint-go126).
+func runCLIBin(name string, cwd string, stdin []byte, extraEnv []string, args ...string) CLIResult {
+	bin := filepath.Join(binDir(), name)
 	cmd := exec.Command(bin, args...)
 	cmd.Dir = cwd
 	cmd.Env = append(os.Environ(), extraEnv...)
